@@ -380,8 +380,7 @@ class Tupl(Combinator[tuple]):
     def deserialize(
         self, env: CombinatorEnv, data: str, idx: int
     ) -> Optional[Tuple[int, List[tuple]]]:
-        if idx == len(data):
-            return None
+        # no early exit at the end of `data`: the elements may all have empty encodings
         parts = []
         ofs = 0
         for element in self._elements:
@@ -558,10 +557,11 @@ class Rooms(Combinator[RoomsType]):
     def _deserialize(
         self, env: CombinatorEnv, data: str, idx: int
     ) -> Optional[Tuple[int, List[RoomsType]]]:
-        if idx == len(data):
-            raise ValueError("index out of bounds")
         height = env.height
         width = env.width
+        if idx == len(data) and height * width > 1:
+            # a 1x1 board has no borders, hence an empty encoding
+            raise ValueError("index out of bounds")
 
         combinator = Tupl(
             Grid(MultiDigit(base=2, digits=5), height=height, width=width - 1),
